@@ -1,6 +1,7 @@
 import Uhppote.Model.Api
 import Uhppote.Spec.Api
 import Uhppote.Gen.Routing
+import Uhppote.Gen.Driver
 /-! # C03 — only a well-formed reply from the addressed controller is ever accepted
 
 `Model.Api.driverReply` + the checks of `sendto` (regenerated list `Gen.Routing.sendtoChecks`):
@@ -59,6 +60,35 @@ theorem C03_directed_first (path : Path) (hp : path ≠ .broadcastTo) (serial : 
     (arrivals : List Bytes) (h : codeOf req ≠ 0x96) :
     driverReply 0x96 path serial req arrivals = some arrivals.head? := by
   cases path <;> simp [driverReply, h] at *
+
+/-- T5 obligation: every receive buffer of the driver is larger than a message, so that the
+    length check of `sendto` / the handlers sees an over-long datagram as over-long -/
+theorem C03_buffers : Gen.Driver.bufSizes.map (·.1) = ["Broadcast", "BroadcastTo", "SendUDP", "SendTCP", "Listen"] ∧
+    Gen.Driver.bufSizes.all (fun p => decide (64 < p.2)) = true := by decide
+
+/-- with a buffer of more than 64 bytes the datagram the library looks at is 64 bytes long exactly
+    when the datagram on the wire is, it then is that datagram, and it passes the broadcast filter
+    exactly when the datagram on the wire does -/
+theorem C03_length_visible (n : Nat) (h : 64 < n) (S : Nat) (d : Bytes) :
+    ((received n d).length = 64 ↔ d.length = 64) ∧ (d.length = 64 → received n d = d) ∧
+    passes S (received n d) = passes S d := by
+  have h1 : (received n d).length = 64 ↔ d.length = 64 := by
+    unfold received; rw [List.length_take]; omega
+  have h2 : d.length = 64 → received n d = d := by
+    intro hd; simp only [received]; exact List.take_of_length_le (by omega)
+  refine ⟨h1, h2, ?_⟩
+  unfold passes
+  by_cases hd : d.length = 64
+  · rw [h2 hd]
+  · have hr : ¬ (received n d).length = 64 := fun hc => hd (h1.1 hc)
+    have e1 : ((received n d).length == 64) = false := by simpa using hr
+    have e2 : (d.length == 64) = false := by simpa using hd
+    rw [e1, e2]; rfl
+
+/-- … and the witness that a buffer of exactly 64 bytes would hide the excess: a 65-byte datagram
+    whose first 64 bytes pass as S's is then taken for a reply of S -/
+theorem C03_buffer64_hides : ∃ d : Bytes, d.length = 65 ∧ passes 0 d = false ∧ passes 0 (received 64 d) = true :=
+  ⟨zeros 65, by decide, by decide, by decide⟩
 
 variable (F : CodecFacts) (T : BCD.Tables) (B : HHmmBounds) (layouts : String → Option Layout)
 
